@@ -1056,6 +1056,9 @@ static void run_path(uint64_t seed, uint64_t idx, const std::string& outdir, FIL
         static const double wf[] = {0.5, 0.75, 1.5, 2.0, 1.0};
         c.w1 = c.w0 * wf[g.below(5)];
         c.o1 = g.chance(50) ? c.o0 : c.o0 * (g.coin() ? 0.5 : 1.5) + (B.n == 1 && g.chance(30) ? 0.5 : 0);
+        // steep offset tapers: the centre curve then leaves the spine at a marked angle (its own normal, not the spine's,
+        // carries the width)
+        if (g.chance(25)) c.o1 = c.o0 + (g.coin() ? 1 : -1) * 0.25 * (double)g.range(4, 12);
         c.end = ends[g.below(5)];
         c.ext = Vec2{0.25 * (double)g.below(9), 0.25 * (double)g.below(9)};
         if (directed) { c.w0 = c.w1 = 4; c.o0 = c.o1 = 0; c.end = EndType::Flush; }
